@@ -88,14 +88,54 @@ def _captured(ctx, f: FuncInfo) -> dict[str, str]:
     return {}
 
 
+def _fold(e, env: dict):
+    """Copy of e with the names of env replaced by string constants and f-strings made of constants folded."""
+    from ..inline import clone
+
+    class F(ast.NodeTransformer):
+        def visit_Name(self, node):
+            if isinstance(node.ctx, ast.Load) and node.id in env:
+                return ast.copy_location(ast.Constant(value=env[node.id]), node)
+            return node
+
+        def visit_JoinedStr(self, node):
+            self.generic_visit(node)
+            parts = []
+            for v in node.values:
+                if isinstance(v, ast.Constant):
+                    parts.append(str(v.value))
+                elif isinstance(v, ast.FormattedValue) and isinstance(v.value, ast.Constant) and v.conversion == -1 and v.format_spec is None:
+                    parts.append(str(v.value.value))
+                else:
+                    return node
+            return ast.copy_location(ast.Constant(value="".join(parts)), node)
+
+    out = F().visit(clone(e))
+    ast.fix_missing_locations(out)
+    return out
+
+
 def _assign_targets(f: FuncInfo):
-    """[(target dotted, value expr, stmt)] for ``_core.X.y = …`` statements."""
+    """[(target dotted, value expr, stmt)] for ``_core.X.y = …`` statements - and for the same written as a loop
+    ``for name in ("a", "b"): setattr(_core.X, name, <value using name>)``, read as the assignments it performs."""
     out = []
     for n in own_nodes(f.node):
         if isinstance(n, ast.Assign) and len(n.targets) == 1 and isinstance(n.targets[0], ast.Attribute):
             d = dotted_of(n.targets[0])
             if d and d.split(".")[0] in ("_core", "_graph_containers"):
                 out.append((d, n.value, n))
+        elif isinstance(n, ast.For) and isinstance(n.target, ast.Name) and not n.orelse and len(n.body) == 1 and isinstance(n.body[0], ast.Expr) \
+                and isinstance(n.body[0].value, ast.Call) and dotted_of(n.body[0].value.func) == "setattr" and len(n.body[0].value.args) == 3:
+            it = n.iter
+            if isinstance(it, ast.Name):
+                binds = [a.value for a in own_nodes(f.node) if isinstance(a, ast.Assign) and any(isinstance(t, ast.Name) and t.id == it.id for t in a.targets)]
+                it = binds[0] if len(binds) == 1 else it
+            call = n.body[0].value
+            cls_d = dotted_of(call.args[0])
+            if isinstance(it, (ast.Tuple, ast.List)) and all(isinstance(e, ast.Constant) and isinstance(e.value, str) for e in it.elts) \
+                    and isinstance(call.args[1], ast.Name) and call.args[1].id == n.target.id and cls_d and cls_d.split(".")[0] in ("_core", "_graph_containers"):
+                for e in it.elts:
+                    out.append((f"{cls_d}.{e.value}", _fold(call.args[2], {n.target.id: e.value}), n))
     return out
 
 
